@@ -44,6 +44,9 @@ pub enum Alt {
     /// like `NonBool`, and the operand columns of the two bits' BoolCheck rows are set to 0
     /// independently of the slot value (the check only binds if those columns are on the bus)
     NonBoolDecoupled { pos: u8 },
+    /// as above, but only the checked `a` cell of the BoolCheck row gets the boolean value; the
+    /// `c` / `out` cells keep the forged slot value
+    NonBoolDecoupledA { pos: u8 },
     /// two adjacent bits carry extension-field junk that cancels inside each bit's higher
     /// coefficients and across the weighted sum: b[pos] -= 2J, b[pos+1] += J, J = t(X - X^2)
     /// (degree >= 3 circuits; the degree-0 coefficients stay boolean)
@@ -176,7 +179,7 @@ fn check<C: Pv>(c: &Case) -> Report {
             }
             class = "bits:x+p".into();
         }
-        (What::Bits { .. }, Alt::NonBool { pos }) | (What::Bits { .. }, Alt::NonBoolDecoupled { pos }) => {
+        (What::Bits { .. }, Alt::NonBool { pos }) | (What::Bits { .. }, Alt::NonBoolDecoupled { pos }) | (What::Bits { .. }, Alt::NonBoolDecoupledA { pos }) => {
             if nbits < 2 {
                 return Report::discard("needs two bits");
             }
@@ -192,6 +195,8 @@ fn check<C: Pv>(c: &Case) -> Report {
             alt[k + 1] = alt[k + 1] - C::EF::ONE;
             class = if matches!(c.alt, Alt::NonBoolDecoupled { .. }) {
                 "bits:non-boolean-decoupled".into()
+            } else if matches!(c.alt, Alt::NonBoolDecoupledA { .. }) {
+                "bits:non-boolean-decoupled-a-only".into()
             } else {
                 "bits:non-boolean".into()
             };
@@ -315,7 +320,7 @@ fn check<C: Pv>(c: &Case) -> Report {
     pins.insert(y_slot, y_alt);
     let w = opsem::propagate::<C>(&circuit, &w0, &pins);
     let mut t = forge::traces_from_assignment::<C>(&circuit, &w, &honest);
-    if matches!(c.alt, Alt::NonBoolDecoupled { .. }) {
+    if matches!(c.alt, Alt::NonBoolDecoupled { .. } | Alt::NonBoolDecoupledA { .. }) {
         // BoolCheck rows of forged bits: put a boolean value into the checked columns
         let forged: std::collections::HashSet<u32> = hint_outs
             .iter()
@@ -326,7 +331,9 @@ fn check<C: Pv>(c: &Case) -> Report {
         for (r, kind) in t.alu_trace.op_kind.clone().iter().enumerate() {
             if *kind == p3_circuit::AluOpKind::BoolCheck && forged.contains(&t.alu_trace.indices[r][3].0) {
                 t.alu_trace.values[r][0] = C::EF::ZERO;
-                t.alu_trace.values[r][2] = C::EF::ZERO;
+                if matches!(c.alt, Alt::NonBoolDecoupled { .. }) {
+                    t.alu_trace.values[r][2] = C::EF::ZERO;
+                }
             }
         }
     }
@@ -428,6 +435,7 @@ fn strategy() -> impl Strategy<Value = Case> {
             3 => (0u8..5).prop_map(|limb| Alt::AddP { limb }),
             3 => any::<u8>().prop_map(|pos| Alt::NonBool { pos }),
             3 => any::<u8>().prop_map(|pos| Alt::NonBoolDecoupled { pos }),
+            3 => any::<u8>().prop_map(|pos| Alt::NonBoolDecoupledA { pos }),
             3 => (any::<u8>(), any::<u8>()).prop_map(|(pos, t)| Alt::ExtJunkBits { pos, t }),
             3 => (prop_oneof![2 => Just(0u8), 1 => any::<u8>()], any::<u8>()).prop_map(|(pos, k)| Alt::Absorb { pos, k }),
             1 => any::<u8>().prop_map(|pos| Alt::Flip { pos }),
